@@ -84,6 +84,9 @@ pub struct ExpEl {
     pub scan_pos: usize,
     /// rule set in which the last failure happened (while `after_failure`)
     pub failed_in: Option<usize>,
+    /// match start (char position) and action counter before the scan that produced this element
+    pub ms_pos: usize,
+    pub cnt: u32,
 }
 
 pub fn exp_elements(h: &History) -> Vec<ExpEl> {
@@ -104,6 +107,8 @@ pub fn exp_elements(h: &History) -> Vec<ExpEl> {
                     set_before: m.set,
                     scan_pos: m.lex_start,
                     failed_in,
+                    ms_pos: m.ms_before,
+                    cnt: h.evs[k].cnt,
                 });
             }
             if m.outcome.contains('s') {
@@ -120,6 +125,8 @@ pub fn exp_elements(h: &History) -> Vec<ExpEl> {
             set_before: h.item_set.get(i).copied().unwrap_or(0),
             scan_pos: h.item_scan_pos.get(i).copied().unwrap_or(0),
             failed_in,
+            ms_pos: h.item_ms.get(i).copied().unwrap_or(0),
+            cnt: h.item_cnt.get(i).copied().unwrap_or(0),
         });
         if matches!(it, Item::ErrInvalid { .. }) {
             after_failure = true;
@@ -137,6 +144,8 @@ pub fn exp_elements(h: &History) -> Vec<ExpEl> {
                 set_before: m.set,
                 scan_pos: m.lex_start,
                 failed_in,
+                ms_pos: m.ms_before,
+                cnt: h.evs[k].cnt,
             });
         }
         if m.outcome.contains('s') {
@@ -153,6 +162,8 @@ pub fn exp_elements(h: &History) -> Vec<ExpEl> {
             set_before: h.end_set,
             scan_pos: h.end_pos,
             failed_in,
+            ms_pos: h.end_ms,
+            cnt: h.end_cnt,
         });
     }
     v
@@ -194,6 +205,15 @@ pub trait Oracle {
     /// maximal-munch selection from `pos` in rule set `set`: (rule id, end char position), None = nothing matches
     fn select(&mut self, set: usize, pos: usize) -> Option<(u32, usize)>;
     fn pos_of_byte(&self, byte: usize) -> Option<usize>;
+    /// maximal-munch selection pretending that candidate (rule, end) did not match
+    fn select_excluding(&mut self, set: usize, pos: usize, rule: u32, end: usize) -> Option<(u32, usize)>;
+    /// Hypothesis test: had the lexer been in rule set `set` at this point (position `pos`, match
+    /// start `ms`, action counter `cnt`), would the reference produce exactly `obs_rest`?
+    /// With `need_evidence` the hypothesis is only accepted if the hypothetical run starts by
+    /// executing a rule of `set` (otherwise an immediate failure in any rule set would "explain"
+    /// an InvalidToken).
+    fn explains(&mut self, set: usize, pos: usize, ms: usize, cnt: u32, obs_rest: &[El], need_evidence: bool) -> bool;
+    fn n_sets(&self) -> usize;
 }
 
 fn add(props: &mut Vec<&'static str>, p: &'static str) {
@@ -204,6 +224,9 @@ fn add(props: &mut Vec<&'static str>, p: &'static str) {
 
 struct SelCtx<'a> {
     info: &'a SpecInfo,
+    obs_rest: &'a [El],
+    ms_pos: usize,
+    cnt: u32,
     scan_pos: usize,
     set_before: usize,
     after_failure: bool,
@@ -226,21 +249,29 @@ fn classify_selection(props: &mut Vec<&'static str>, c: &SelCtx, oracle: &mut dy
             return;
         }
     }
-    if c.after_failure {
-        if let Some(fs) = c.failed_in {
-            if fs != c.set_before {
-                let hyp = oracle.select(fs, c.scan_pos);
-                let same = match (hyp, obs) {
-                    (None, None) => true,
-                    (Some((hr, he)), Some((or, Some(oe)))) => hr == or && he == oe,
-                    _ => false,
-                };
-                if same {
-                    // exactly what the lexer would do had it stayed in the rule set it failed in
-                    add(props, "C08");
-                    add(props, "C03");
-                    return;
+    // hypothesis test: is the *whole remaining observed history* what the reference does when
+    // started here in some other rule set? (after a failure: the rule set the failure happened in)
+    {
+        let mut cands: Vec<usize> = vec![];
+        if c.after_failure {
+            if let Some(fs) = c.failed_in {
+                if fs != c.set_before {
+                    cands.push(fs);
                 }
+            }
+        }
+        for s in 0..oracle.n_sets() {
+            if s != c.set_before && !cands.contains(&s) {
+                cands.push(s);
+            }
+        }
+        for s in cands {
+            if oracle.explains(s, c.scan_pos, c.ms_pos, c.cnt, c.obs_rest, true) {
+                add(props, "C03");
+                if c.after_failure && c.failed_in == Some(s) {
+                    add(props, "C08");
+                }
+                return;
             }
         }
     }
@@ -263,7 +294,12 @@ fn classify_selection(props: &mut Vec<&'static str>, c: &SelCtx, oracle: &mut dy
                             // a genuine candidate, but not the maximal-munch / first-rule one
                             add(props, "C01");
                             if exp_has_ctx {
-                                add(props, "C04");
+                                // is this what the lexer does when the expected rule's context is
+                                // (wrongly) taken to fail?
+                                let (er, ee2) = exp.unwrap();
+                                if oracle.select_excluding(c.set_before, c.scan_pos, er, ee2) == Some((or, oe)) {
+                                    add(props, "C04");
+                                }
                             }
                             if oe < ee {
                                 // the lexer stopped short of a longer match: a path of the longer rule
@@ -292,13 +328,17 @@ fn classify_selection(props: &mut Vec<&'static str>, c: &SelCtx, oracle: &mut dy
         (None, Some((_er, _ee))) => {
             add(props, "C07");
             if exp_rewind > 0 {
+                // the match was only reachable by rewinding
                 add(props, "C01");
             } else {
+                // a plain prefix match was not recognised
                 add(props, "C02");
-                add(props, "C01");
             }
             if exp_has_ctx {
-                add(props, "C04");
+                let (er, ee2) = exp.unwrap();
+                if oracle.select_excluding(c.set_before, c.scan_pos, er, ee2).is_none() {
+                    add(props, "C04");
+                }
             }
             if exp_via_eoi {
                 add(props, "C05");
@@ -315,7 +355,6 @@ fn classify_selection(props: &mut Vec<&'static str>, c: &SelCtx, oracle: &mut dy
                         add(props, "C01");
                     } else {
                         add(props, "C02");
-                        add(props, "C10");
                     }
                 }
                 _ => {
@@ -344,6 +383,9 @@ pub fn first_divergence(obs: &[El], exp: &[ExpEl], info: &SpecInfo, oracle: &mut
         let after_failure = e.map(|e| e.after_failure).unwrap_or_else(|| last.map(|l| l.after_failure).unwrap_or(false));
         let sc = SelCtx {
             info,
+            obs_rest: &obs[i.min(obs.len())..],
+            ms_pos: e.map(|e| e.ms_pos).unwrap_or_else(|| last.map(|l| l.ms_pos).unwrap_or(0)),
+            cnt: e.map(|e| e.cnt).unwrap_or_else(|| last.map(|l| l.cnt).unwrap_or(0)),
             scan_pos: e.map(|e| e.scan_pos).unwrap_or_else(|| last.map(|l| l.scan_pos).unwrap_or(0)),
             set_before: e.map(|e| e.set_before).unwrap_or_else(|| last.map(|l| l.set_before).unwrap_or(0)),
             after_failure,
@@ -459,13 +501,7 @@ pub fn first_divergence(obs: &[El], exp: &[ExpEl], info: &SpecInfo, oracle: &mut
                     add(&mut props, "C05");
                 } else if after_failure && sc.failed_in.map(|f| f != sc.set_before).unwrap_or(false) {
                     // consistent with the lexer still being in the rule set it failed in?
-                    let hyp = oracle.select(sc.failed_in.unwrap(), sc.scan_pos);
-                    let explained = match (o, hyp) {
-                        (Some(El::It(Item::ErrInvalid { .. })), None) => true,
-                        (Some(El::Ev(oe)), Some((hr, _))) => hr == oe.rule,
-                        (Some(El::It(Item::Tok { rule, .. })), Some((hr, _))) => hr == *rule,
-                        _ => false,
-                    };
+                    let explained = oracle.explains(sc.failed_in.unwrap(), sc.scan_pos, sc.ms_pos, sc.cnt, sc.obs_rest, false);
                     if explained {
                         add(&mut props, "C08");
                         add(&mut props, "C03");
